@@ -431,7 +431,12 @@ func (s *session) newManifest(rec *sessionRecord, v *version) (err error) {
 				s.manifestWriter.Close()
 			}
 			if !s.manifestFd.Zero() {
-				err = s.stor.Remove(s.manifestFd)
+				// The new manifest is current and durable by now: failing to
+				// remove the old one must not fail the commit (the next Open
+				// removes obsolete manifests).
+				if rerr := s.stor.Remove(s.manifestFd); rerr != nil {
+					s.logf("manifest@remove removing @%d %q", s.manifestFd.Num, rerr)
+				}
 			}
 			s.manifestFd = fd
 			s.manifestWriter = writer
